@@ -194,6 +194,16 @@ theorem C39_peer_tx_total (mm : Murmur) (b : Bytes) (f g : Filter) (tx : Tx)
   obtain ⟨r, g', hrun, _⟩ := matchTx_spec mm g tx hg
   exact ⟨r, g', hrun⟩
 
+/-- The codec of `filterload` round-trips: what `FilterLoad.Serialize` writes for a filter within
+    the limits is decoded by `FilterLoad.Deserialize` to the same filter (bits, hash functions,
+    tweak and tx types) — so a client's filter arrives unchanged. -/
+theorem C39_load_encode (f : Filter) (flags : UInt8) (hb : f.bits.length ≤ 36000)
+    (hh : f.hashFuncs.toNat ≤ 50) (ht : f.txTypes.length < 2 ^ 64) :
+    loadFilter (encodeFilterLoad f flags) = some f :=
+  loadFilter_encode f flags hb hh ht
+
+example : encodeFilterLoad ⟨[0xaa, 0x55], 3, 7, [2]⟩ 1 = [2, 0xaa, 0x55, 3, 0, 0, 0, 7, 0, 0, 0, 1, 1, 2] := by decide
+
 /-- T-gen: the limits of both copies of the constants are the model's; `hash`, the guards and the
     loops of `matches`/`add` read as transcribed (the empty-filter guard is present in both);
     the decoder reads var-bytes(36000), HashFuncs, Tweak, the 50 check, Flags, then the optional
